@@ -39,6 +39,19 @@ macro_rules! rejects {
     }};
 }
 
+// same, plus std::mem::drop leaking (lex/verif_kani/common.rs::mem_drop__leak): used for
+// the spellings deep in the alternative chain, which are 2-4 times faster without std's
+// BTreeMap destructor in the dead drop glue.
+macro_rules! obligation_leak {
+    ($name:ident, $body:block) => {
+        #[kani::proof]
+        #[kani::unwind(1)]
+        #[kani::stub(std::mem::drop, crate::lex::verif_kani::common::mem_drop__leak)]
+        #[kani::stub(crate::lex::expect, crate::lex::verif_kani::common::expect__contract)]
+        fn $name() $body
+    };
+}
+
 macro_rules! obligation {
     ($name:ident, $body:block) => {
         #[kani::proof]
